@@ -256,6 +256,13 @@ def run_unit(tpl, scratch, tier, keep):
                     label = tg['label']
         if label is None and tag and tag.get('label'):
             label = tag['label']
+        if label is None and spans:
+            # a multi-line clause/assert: any line of the primary span may carry the marker
+            for ln in range(spans[0]['line_start'], min(spans[0].get('line_end', spans[0]['line_start']), spans[0]['line_start'] + 40) + 1):
+                tg = unit.tags[ln - 1] if 0 < ln <= len(unit.tags) else None
+                if tg and tg.get('label'):
+                    label = tg['label']
+                    break
         fn = (tag or {}).get('fn') or '?'
         if label is None and ('decreases' in msg or 'termination' in msg.lower()) and line:
             # reported at the loop keyword / fn header: map to the first termination label that follows
